@@ -17,6 +17,11 @@ class Prop:
     level = "proof"
     design_ref = ""
     assumptions = []
+    category = "proof"
+    level_text = ""
+    level_note = ("Trusted: Coq 8.16.1 kernel, no axioms (Print Assumptions closed), extraction with ExtrOcamlBasic only, "
+                  "the hand-written model/spec and the correspondence harness; see DESIGN.md section 8")
+    technique = "machine-checked Coq proof about an executable model + differential correspondence to the code"
 
     def batches(self, tier, seed):
         raise NotImplementedError
